@@ -199,6 +199,98 @@ def normSq [Add α] [Mul α] [Zero α] (T : Ttensor α) : Except Reject α :=
 
 end Ttensor
 
+/-- `ktensor.mask(W)`: the values of the Kruskal tensor at the subscripts where the mask `W` is
+non-zero (`W.find()` order), component by component: `λ_j · A₀[i₀,j] · A₁[i₁,j] ⋯`, summed over `j`.
+The mask must have the same order and no larger extents.  (An empty list of subscripts gives an
+empty result.) -/
+def Ktensor.mask [Add α] [Mul α] [Zero α] (K : Ktensor α) (wshape : List Nat) (wsubs : List (List Nat)) :
+    Except Reject (List α) :=
+  if wshape.length != K.factors.length then .error .reject
+  else if (wshape.zip K.shape).any (fun p => p.1 > p.2) then .error .reject
+  else .ok (wsubs.map fun sub =>
+    (List.range K.ncomp).foldl (fun acc j =>
+      acc + (List.range K.factors.length).foldl
+        (fun t k => t * (K.factors.getD k []).get (sub.getD k 0) j) (K.weights.getD j 0)) 0)
+
+/-- One entry of the `samples` argument of `ttensor.reconstruct`: an index vector (rows of the factor
+are gathered) or a matrix with as many columns as the mode has entries (multiplied onto the factor). -/
+inductive ReconSample (α : Type) where
+  | idx (l : List Nat)
+  | mat (M : Dense.MatArg α)
+  deriving Repr, BEq, DecidableEq
+
+/-- `ttensor.reconstruct(samples, modes)`. -/
+def Ttensor.reconstruct [Add α] [Mul α] [Zero α] (T : Ttensor α) (samples : Option (List (ReconSample α)))
+    (modes : Option (List Nat)) : Except Reject (Dense α) :=
+  let N := T.factors.length
+  match samples, modes with
+  | none, none => T.full
+  | none, some _ => .error .reject
+  | some ss, ms =>
+    let md := ms.getD (List.range N)
+    if ss.length > 0 && ss.length != md.length then .error .reject
+    else if (ss.zip md).any (fun p => p.2 ≥ N) then .error .reject
+    else
+      let pick (k : Nat) : Option (ReconSample α) := ((ss.zip md).reverse.find? (fun p => p.2 == k)).map (·.1)
+      let newU : Except Reject (List (Mat α)) := (List.range N).mapM fun k =>
+        let U := T.factors.getD k []
+        match pick k with
+        | none => .ok U
+        | some (.idx l) =>
+          if l.isEmpty then .ok U
+          else if l.any (· ≥ U.length) then .error .reject
+          else .ok (l.map fun a => U.getD a [])
+        | some (.mat M) =>
+          if M.m == 0 then .ok U
+          else if M.n == U.length then .ok (M.rows.mulD U M.m M.n (T.core.shape.getD k 0))
+          else .error .reject     -- a 2-d float array used as an index
+      match newU with
+      | .error e => .error e
+      | .ok fs => Ttensor.full ⟨T.core, fs⟩
+
+/-- Tucker tensor whose core is a sparse tensor. -/
+structure TtensorS (α : Type) where
+  core : Sparse α
+  factors : List (Mat α)
+  deriving Repr, BEq, DecidableEq
+
+/-- A Tucker result whose core came back dense or sparse. -/
+inductive TuckerAny (α : Type) where
+  | denseCore (t : Ttensor α)
+  | sparseCore (t : TtensorS α)
+  deriving Repr, BEq, DecidableEq
+
+namespace TtensorS
+
+/-- `ttensor.full()` with a sparse core: `core.ttm(factors)` through the sparse kernel (dense result). -/
+def full [Add α] [Mul α] [Zero α] [BEq α] (T : TtensorS α) : Except Reject (Dense α) :=
+  T.core.ttm (T.factors.map fun U => ⟨U, U.length, U.ncols⟩) none none false
+
+/-- `ttensor.ttv` with a sparse core: the core is multiplied through the sparse `ttv` kernel, so the
+new core may come back as a scalar, a dense tensor or a sparse tensor. -/
+def ttvCore [Add α] [Mul α] [Zero α] [BEq α] (T : TtensorS α) (pairs : List (Nat × List α)) :
+    Except Reject (ScalarOr α (TuckerAny α)) :=
+  let N := T.factors.length
+  if pairs.any (fun p => p.2.length != (T.factors.getD p.1 []).length) then .error .reject
+  else
+    let rem := complDims N (pairs.map (·.1))
+    let W := pairs.map fun p => (p.1, (T.factors.getD p.1 []).tmulVec p.2 (T.core.shape.getD p.1 0))
+    let fs := gatherD T.factors rem []
+    match T.core.ttvCore W with
+    | .error e => .error e
+    | .ok (.scalar v) => if rem.isEmpty then .ok (.scalar v) else .error .reject
+    | .ok (.dense c) => if rem.isEmpty then .error .reject else .ok (.obj (.denseCore ⟨c, fs⟩))
+    | .ok (.sparse c) => if rem.isEmpty then .error .reject else .ok (.obj (.sparseCore ⟨c, fs⟩))
+    | .ok (.vec v) => if rem.isEmpty then .error .reject else .ok (.obj (.denseCore ⟨⟨[v.length], v⟩, fs⟩))
+
+def ttv [Add α] [Mul α] [Zero α] [BEq α] (T : TtensorS α) (vs : List (List α)) (dims excl : Option (List Int)) :
+    Except Reject (ScalarOr α (TuckerAny α)) :=
+  match resolveModes T.factors.length vs dims excl with
+  | .error e => .error e
+  | .ok pairs => T.ttvCore pairs
+
+end TtensorS
+
 namespace ML
 
 /-- One part of a sum tensor (also: any tensor object, for cross-representation statements). -/
